@@ -493,7 +493,7 @@ func streamManageDeployment(r *rand.Rand, i int, tier string) *Case {
 	fail := map[string]bool{}
 	for k := r.Intn(4); k > 0 && r.Intn(2) == 0; k-- {
 		ni := strategy.NewNodeItem(genNode(r, fmt.Sprintf("gone%d", k), false), nil)
-		pod := buildPod(r, pick(r, catOutdatedAvail, catUpToDateAvail, catOutdatedTerminating), cur, old, ni, now, 100+k)
+		pod := buildPod(r, pick(r, catOutdatedAvail, catUpToDateAvail, catOutdatedTerminating), cur, old, ni, now, 100000+k)
 		params.PodToCleanUp = append(params.PodToCleanUp, pod)
 		objs = append(objs, pod)
 		if r.Intn(4) == 0 && pod.DeletionTimestamp == nil {
